@@ -12,6 +12,10 @@ for l in open("/verif/properties.jsonl"):
 else:
     sys.exit("no such property")
 txt = {k: p[k] for k in ("id", "title", "statement", "quantifier", "why_tests_cant", "anchors")}
+avoid = ""
+if len(sys.argv) > 3:
+    avoid = ("\nAn earlier regression for this property already did the following — choose a DIFFERENT function and a different "
+             "mechanism (ideally another clause of the property): " + sys.argv[3] + "\n")
 print(f"""You are helping to evaluate a verification effort for the Rust workspace p2panda (a modular p2p toolkit).
 Your job: play the role of a developer who introduces a *subtle regression*.
 
@@ -21,6 +25,7 @@ Here is a semantic property that the code base is supposed to satisfy:
 
 {json.dumps(txt, indent=1)}
 
+{avoid}
 Task
 1. Read the relevant code in {wt}.
 2. Make a small, realistic change to the *non-test* source of the repository (the kind of edit a developer could plausibly make in a refactoring, optimisation or feature commit: a reordered statement, a dropped or weakened check, a changed comparison, a moved await, a wrong variable, a different but type-compatible callee, an extra early return ...) that BREAKS the property above, while
